@@ -9,7 +9,7 @@ for f in sorted(glob.glob('/verif/seeded/*/meta.json')):
     rows.append("| %s | %s | %s | %s | %s |"%(m['id'],m['what_it_changes'].replace('|','/'),m['needs_to_manifest'].replace('|','/'),m['result_against_checks'].replace('|','/'),ver))
 seeded="| id | change (written by an independent sub-agent from the property text alone) | needs | result against the checks | my verification in a scratch worktree |\n|---|---|---|---|---|\n"+"\n".join(rows)
 n=len(rows); missed=sum(1 for r in rows if 'MISSED' in r or 'attributed to' in r or 'NOT DECIDED' in r); out=sum(1 for r in rows if 'NOT CAUGHT' in r)
-seeded+="\n\n%d seeded changes: %d caught by the quick tier at the first run, %d missed, undecided or mis-attributed at first and caught after the strengthening described in their row, %d not caught because it lies outside what the property quantifies over (see its row).\n"%(n,n-missed-out,missed,out)
+seeded+="\n\n%d seeded changes: %d caught by the quick tier at the first run, %d missed, undecided or mis-attributed at first and caught after the strengthening described in their row, %d not caught because they lie outside what the checks can soundly decide (see their rows and 9.9).\n"%(n,n-missed-out,missed,out)
 mrows=[]
 for l in open('/verif/mutants/RESULTS.tsv'):
     p=l.rstrip('\n').split('\t')
